@@ -496,7 +496,12 @@ CHARS = [b'a', b'b', b'c', b'A', b'B', b'_', b' ', b'1', b'-', 'Ã©'.encode(), 'Ã
 METALITS = [b'(', b')', b'.', b'*', b'+', b'?', b'[', b'|', b'^', b'$', b'{', b'\\', b'(', b')']
 BRKS = [b'[(a]', b'[^)]', b'[ab]', b'[^ab]', b'[a-c]', b'[^a-c_]', b'[[:alpha:]]', b'[[:digit:][:space:]]', b'[^[:alnum:]]', b'[]a]', b'[^]a]', b'[a-]',
         b'[A-Z]', b'[[:upper:]b]', '[Ã -Ã¿]'.encode(), '[^ä¸€-é¿¿]'.encode(), b'[[:word:]]', b'[[:punct:]]', b'[.*]', b'[a\\]',
-        b'[b-a]', b'[Z-a]', b'[[:xdigit:]-]', b'[[:lower:]]']
+        b'[b-a]', b'[Z-a]', b'[[:xdigit:]-]', b'[[:lower:]]',
+        # shapes of the repaired defect f534655 (rset.c re_groupcount vs brk_len): '[*' and '[=' inside a bracket,
+        # a class that comes first in a bracket, parentheses inside brackets
+        b'[a[*]', b'[a[*)]', b'[[:space:]()]', b'[[:alpha:](]', b'[^[:digit:])]', b'[])(]', b'[^](]']
+# brackets whose text contains a parenthesis or a nested-looking '[' (aimed family of c10.py)
+PBRKS = [b'[a[*]', b'[a[*)]', b'[[:space:]()]', b'[[:alpha:](]', b'[^[:digit:])]', b'[])(]', b'[^](]', b'[(a]', b'[^)]']
 
 
 def esc(lit):
